@@ -116,7 +116,7 @@ def _scripted_base(rng, c, L):
     return seg
 
 
-def _vl_base(rng, n, kind):
+def _vl_base(rng, n, kind, vaux):
     shape = rng.choice(sp.PSHAPES)
     gens = sp.random_gens(rng, with_aux=True, bmax=2)
     seg = {"n": n, "shape": shape, "gens": gens, "opt": sp.random_opt(rng, rng.choice(["sgd", "momentum", "schedule"])),
@@ -128,10 +128,17 @@ def _vl_base(rng, n, kind):
     seg["loss"] = sp.random_loss(rng, nflat, gens)
     vg = sp.random_gens(rng, with_aux=True, bmax=2)
     vg["data"]["b"] = rng.choice([1, 2])
-    vg["data"]["nt"] = max(vg["data"]["nt"], vg["data"]["b"])
-    for k in ("param", "obs"):
-        if vg[k] is not None:
-            vg[k]["n"] = max(vg[k]["n"], vg["data"]["b"])
+    vg["data"]["nt"] = max(vg["data"]["nt"], 2 * vg["data"]["b"])      # at least two distinct own batches
+    # the validation module's own auxiliary generators are fixed by the case index (not left to chance),
+    # so that every run has modules owning a parameter generator, an observation generator, both, none
+    vb = vg["data"]["b"]
+    vg["param"] = ({"n": rng.choice([x for x in (2, 3, 4, 6) if x >= vb]), "seed": rng.randrange(1 << 30),
+                    "keys": ["nu"]} if "param" in vaux else None)
+    if "obs" in vaux:
+        no = rng.choice([x for x in (3, 4, 5, 8) if x >= vb])
+        vg["obs"] = {"n": no, "seed": rng.randrange(1 << 30), "vals": [rng.randint(-3, 3) for _ in range(no)]}
+    else:
+        vg["obs"] = None
     if kind == "plateau":
         # the criterion only depends on a parameter the training loss never moves: equal values from
         # the second invocation on (non-strict "improvements" must not count)
@@ -168,12 +175,14 @@ def gen_cases(rng, tier):
     nb = 6 if tier == "quick" else 30
     for bi in range(nb):
         n = rng.choice([8, 12, 12, 16, 20])
-        base = _vl_base(rng, n, ["plateau", "random", "staircase", "random"][bi % 4])
+        base = _vl_base(rng, n, ["plateau", "random", "staircase", "random"][bi % 4],
+                        [("param", "obs"), ("obs",), (), ("param",), ("obs",), ("param", "obs")][bi % 6])
         variants = []
         for c in (1, 2, 3):
             for pat in (0, 1, 2, 3):
                 for early in (True, False):
-                    if tier == "quick" and rng.random() < 0.5 and not (pat <= 1 and early):
+                    if tier == "quick" and rng.random() < 0.5 and not (pat <= 1 and early) \
+                            and not (pat == 0 and not early):
                         continue
                     variants.append({"call_every": c, "patience": pat, "early": early})
         cases.append({"mode": "vloss", "seg": base, "variants": variants})
